@@ -339,7 +339,7 @@ def gen_C16_mpi(c, rng, tier):
     for t in ['d', 'f']:
         fmt = FMTS[t]
         for kind in KINDS:
-            for _ in range(scale(tier, 3, 20)):
+            for _ in range(scale(tier, 5, 20)):
                 iters = rng.choice([1, 2, 3])
                 s, cl, info = rand_run(rng, fmt, kind, iters=iters, calls=[1, 2, 5, 7, 11, 16], poly=True, finite_only=True, dists=[], trace=1, cb=['script', []], grid_map=True)
                 calls = info['calls']
@@ -347,8 +347,9 @@ def gen_C16_mpi(c, rng, tier):
                 ops = [['mpi', calls, P, perm], ['dump']]
                 if rng.random() < 0.5:
                     ops += [['mpi', calls[:1], P, perm], ['dump']]          # resume from the returned checkpoint
-                s = small_bins([e for e in s if e[0] != 'ops'] + [['ops', ops]])
-                c.add(t, 'run', s, classes=cl + ['mpi_driver', 'world_%d' % P], info=info)
+                sub = [['subcomm', rng.choice([1, 2, 4])]] if rng.random() < 0.5 else []     # the integration's communicator is a proper part of the world
+                s = small_bins([e for e in s if e[0] != 'ops'] + sub + [['ops', ops]])
+                c.add(t, 'run', s, classes=cl + ['mpi_driver', 'world_%d' % P] + (['sub_communicator'] if sub else []), info=info)
 
 @prop('C09', 'weight vectors (zeros front/middle/end, normalised or not, length 1..12) x canonical numbers at 0, pred(1), every '
       'cumulative boundary and both neighbours, plus random; 3 types; non-trivial = vector has a zero weight or the number is a boundary',
